@@ -1129,7 +1129,7 @@ func fnKey(fn *ssa.Function) string {
 
 func (e *Engine) callStatic(fn *ssa.Function, args []Value) Value {
 	name := fnKey(fn)
-	if fn.Pkg == e.cose && fn.Signature.Recv() == nil && strings.HasPrefix(fn.Name(), "v") && len(fn.Name()) > 1 && fn.Name()[1] >= 'A' && fn.Name()[1] <= 'Z' {
+	if fn.Pkg == e.cose && fn.Signature.Recv() == nil && isAPIName(fn.Name()) {
 		if r, ok := e.harnessAPI(fn.Name(), args, fn); ok {
 			return r
 		}
@@ -1149,6 +1149,17 @@ func (e *Engine) callStatic(fn *ssa.Function, args []Value) Value {
 	}
 	e.unsupported("un-stubbed external callee: " + name)
 	return nil
+}
+
+func isAPIName(n string) bool {
+	up := func(c byte) bool { return c >= 'A' && c <= 'Z' }
+	switch {
+	case len(n) > 2 && n[0] == 'n' && n[1] == 'n' && up(n[2]):
+		return true
+	case len(n) > 1 && (n[0] == 'v' || n[0] == 'n') && up(n[1]):
+		return true
+	}
+	return false
 }
 
 func interpAllowed(name string) bool {
@@ -1207,6 +1218,11 @@ func (e *Engine) builtin(name string, args []Value, c *ssa.CallCommon) Value {
 			}
 		}
 		return Iface{}
+	case "ssa:wrapnilchk":
+		if p, ok := args[0].(PtrV); ok && p.isNil() {
+			e.goPanic("value method called using nil pointer")
+		}
+		return args[0]
 	case "print", "println":
 		return nil
 	case "min", "max":
